@@ -7,6 +7,13 @@ class EvalStack:
     def clear(self):
         self._stack.clear()
 
+    def __len__(self):
+        return len(self._stack)
+
+    def truncate(self, depth):
+        while len(self._stack) > depth:
+            self._stack.pop()
+
     @property
     def top(self):
         return self.below(0)
